@@ -147,7 +147,7 @@ type appView struct {
 func serveApp(conn net.Conn, reply [][]byte, done chan<- *appView) {
 	v := &appView{}
 	defer func() { done <- v }()
-	conn.SetReadDeadline(time.Now().Add(8 * time.Second))
+	conn.SetReadDeadline(time.Now().Add(15 * time.Second))
 	for {
 		rec, err := readRecord(conn)
 		if rec != nil {
@@ -169,7 +169,7 @@ func serveApp(conn net.Conn, reply [][]byte, done chan<- *appView) {
 			break
 		}
 	}
-	conn.SetWriteDeadline(time.Now().Add(4 * time.Second))
+	conn.SetWriteDeadline(time.Now().Add(15 * time.Second))
 	for _, ch := range reply {
 		if len(ch) == 0 {
 			continue
@@ -277,7 +277,7 @@ func startApp(api string, ln net.Listener, reply [][]byte) (client net.Conn, don
 		return cl, done
 	}
 	go func() {
-		ln.(*net.TCPListener).SetDeadline(time.Now().Add(8 * time.Second))
+		ln.(*net.TCPListener).SetDeadline(time.Now().Add(15 * time.Second))
 		conn, err := ln.Accept()
 		if err != nil {
 			done <- &appView{err: fmt.Errorf("accept: %v", err)}
@@ -312,11 +312,10 @@ func fcgiReq(c *fcgiCase, ln net.Listener) vh.Result {
 			nb[j] = alnum[r.Intn(len(alnum))]
 		}
 		vb := make([]byte, p.VL)
-		for j := range vb {
-			if c.API == "rt" {
-				vb[j] = alnum[r.Intn(len(alnum))]
-			} else {
-				vb[j] = byte(r.Intn(256))
+		r.Read(vb)
+		if c.API == "rt" { // travels as an HTTP header value
+			for j := range vb {
+				vb[j] = alnum[int(vb[j])%len(alnum)]
 			}
 		}
 		name, val := string(nb), string(vb)
@@ -336,7 +335,7 @@ func fcgiReq(c *fcgiCase, ln net.Listener) vh.Result {
 	}
 	cl, done := startApp(c.API, ln, stdReply)
 	var derr error
-	pan, fin := vh.GuardTimeout(20*time.Second, func() {
+	pan, fin := vh.GuardTimeout(45*time.Second, func() {
 		if c.API == "do" {
 			client := bfe_fcgi.VerifNewClient(cl)
 			defer client.Close()
@@ -371,7 +370,7 @@ func fcgiReq(c *fcgiCase, ln net.Listener) vh.Result {
 		return fail("panic", pan) // the application goroutine ends on its read deadline / listener close
 	}
 	if !fin {
-		return fail("hang", "client did not finish within 20s")
+		return fail("hang", "client did not finish within 45s")
 	}
 	v := <-done
 	obs := map[string]interface{}{"records": len(v.recs), "client_err": fmt.Sprint(derr), "app_err": fmt.Sprint(v.err)}
@@ -516,9 +515,7 @@ func fcgiResp(c *fcgiCase, ln net.Listener) vh.Result {
 	}
 	key := "resp/" + c.API + "/" + strings.Join(shape, ",")
 	stdout := make([]byte, outTotal)
-	for i := range stdout {
-		stdout[i] = byte(r.Intn(256))
-	}
+	r.Read(stdout)
 	copy(stdout, cgiHead)
 	var syms [][]byte
 	contents := make([][]byte, len(c.Script))
@@ -581,7 +578,7 @@ func fcgiResp(c *fcgiCase, ln net.Listener) vh.Result {
 	var got []byte
 	var derr error
 	var rsp *bfe_http.Response
-	pan, fin := vh.GuardTimeout(20*time.Second, func() {
+	pan, fin := vh.GuardTimeout(45*time.Second, func() {
 		if c.API == "do" {
 			client := bfe_fcgi.VerifNewClient(cl)
 			defer client.Close()
@@ -613,11 +610,11 @@ func fcgiResp(c *fcgiCase, ln net.Listener) vh.Result {
 		return fail("panic", pan)
 	}
 	if !fin {
-		return fail("hang", "client did not finish within 20s")
+		return fail("hang", "client did not finish within 45s")
 	}
 	select {
 	case <-done:
-	case <-time.After(10 * time.Second):
+	case <-time.After(20 * time.Second):
 	}
 	head := func(b []byte) string {
 		if len(b) > 40 {
